@@ -4,8 +4,10 @@ import "strings"
 
 // JoinPrograms: control-flow joins (the point where two branches meet) followed directly by an instruction the peephole
 // pass likes to fuse, inside consumers that pop more than one stack slot. Product of
-//   construct (if / comma / alternative / try / optional / label) x branch tails (variable, constant, access, identity)
-//   x continuation (variable load, constant, identity, break, bind) x consuming context.
+//
+//	construct (if / comma / alternative / try / optional / label) x branch tails (variable, constant, access, identity)
+//	x continuation (variable load, constant, identity, break, bind) x consuming context.
+//
 // every=1 gives the full product; every=k keeps a deterministic 1/k slice (each construct, tail and context still occurs).
 func JoinPrograms(every int) []string {
 	tails := []string{"$a", "$b", "1", "\"s\"", ".k?", ".", "null", "[.]"}
